@@ -54,10 +54,14 @@ package execext
 //@   ensures result == stdHandler                                                                     [C02,C03,C14,C17]
 
 // ---- C16: expanding a task dir or include location never indexes an empty word list -----------------------
+// the expander is handed a configuration made for THIS call: it keeps its working state (field separators, buffers, the
+// parameter being expanded) in that object, and task directories and source patterns are expanded by many tasks at once
 //@ func ExpandLiteral
 //@   sweep                                                                                                     [C16]
+//@   site expand.Literal#0 requires fresh(arg0)                                                                [C18,C11]
 //@ func ExpandFields
 //@   sweep                                                                                                     [C16]
+//@   site expand.Fields#0 requires fresh(arg0)                                                                 [C18,C11]
 // a wildcard is matched against the COMPLETE listing of a directory (os.ReadDir: every entry, sorted): the sources
 // and generates of a task are all the files that match, however many there are
 //@ callers os.ReadDir : execext.ExpandLiteral execext.ExpandFields                                             [C04,C05,C09]
